@@ -1,20 +1,26 @@
 """P10: path-sensitive boolean abstraction over a handful of named booleans (results of named calls).
 
-State space: (block, partial assignment of the named booleans) — finite, explored exhaustively (loops included)."""
+State space: (block, partial assignment of the named booleans, per-path knowledge about bool locals) — finite, explored
+exhaustively (loops included). Short-circuit `&&`/`||` lowering (a bool local assigned constants / copies on different
+branches) is followed by a per-path constant/alias propagation."""
 from .facts import callee, op_place
 
 
-def symbolic_bools(body, named_calls):
-    """named_calls: {name: predicate(call terminator)}.
-    Returns (sym, eval_blocks): sym maps local -> (name, polarity) for locals that hold a named boolean or its negation
-    (through copies / moves / `Not`); eval_blocks maps name -> blocks whose terminator evaluates it."""
-    sym = {}
+def _named_dests(body, named_calls):
+    dest = {}
     eval_blocks = {}
     for bb, t in body.calls():
         for name, pred in named_calls.items():
             if pred(t) and not t['dest'].get('p'):
-                sym[t['dest']['l']] = (name, True)
+                dest[bb] = (t['dest']['l'], name)
                 eval_blocks.setdefault(name, []).append(bb)
+    return dest, eval_blocks
+
+
+def symbolic_bools(body, named_calls):
+    """flow-insensitive view (kept for callers that only need which locals alias a named boolean)"""
+    dest, eval_blocks = _named_dests(body, named_calls)
+    sym = {l: (n, True) for (l, n) in dest.values()}
     changed = True
     while changed:
         changed = False
@@ -37,53 +43,99 @@ def symbolic_bools(body, named_calls):
     return sym, eval_blocks
 
 
-def states_at(body, sink_blocks, named_calls):
+def states_at(body, sink_blocks, named_calls, max_states=200000):
     """All abstract states (dict name -> True/False, absent = unknown) with which some CFG path from the entry can
-    arrive at one of `sink_blocks`. Branches on a named boolean refine the state; re-evaluating a named call forgets it."""
-    sym, eval_blocks = symbolic_bools(body, named_calls)
-    evals = {}
-    for n, bbs in eval_blocks.items():
-        for b in bbs:
-            evals.setdefault(b, []).append(n)
-    start = (0, frozenset())
+    arrive at one of `sink_blocks`."""
+    dest, eval_blocks = _named_dests(body, named_calls)
+    bool_locals = {i for i, ty in enumerate(body.locals) if ty == 'bool'}
+
+    def freeze(named, loc):
+        return (frozenset(named.items()), frozenset(loc.items()))
+
+    start = (0,) + freeze({}, {})
     seen = {start}
     work = [start]
     out = {b: set() for b in sink_blocks}
     while work:
-        bb, st = work.pop()
+        if len(seen) > max_states:
+            raise RuntimeError('boolpaths: state explosion')
+        bb, fn, fl = work.pop()
+        named = dict(fn)
+        loc = dict(fl)
         if bb in out:
-            out[bb].add(st)
+            out[bb].add(fn)
+        # transfer over the statements of the block
+        for st in body.stmts(bb):
+            lhs = st.get('lhs')
+            if lhs is None or lhs.get('p'):
+                continue
+            l = lhs['l']
+            if l not in bool_locals:
+                continue
+            rv = st['rv']
+            val = None
+            if rv['k'] == 'use':
+                o = rv['op']
+                if 'int' in o:
+                    val = ('c', o['int'] != '0')
+                else:
+                    pl = op_place(o)
+                    if pl is not None and not pl.get('p'):
+                        val = loc.get(pl['l'])
+            elif rv['k'] == 'un' and rv['uop'] == 'Not':
+                pl = op_place(rv['op'])
+                if pl is not None and not pl.get('p') and pl['l'] in loc:
+                    v = loc[pl['l']]
+                    val = ('c', not v[1]) if v[0] == 'c' else ('s', v[1], not v[2])
+            if val is None:
+                loc.pop(l, None)
+            else:
+                loc[l] = val
         t = body.term(bb)
         if not t:
             continue
-        d = dict(st)
+        # the terminator may evaluate a named boolean
+        if bb in dest:
+            l, name = dest[bb]
+            named.pop(name, None)
+            # aliases of the old evaluation are dropped
+            loc = {k: v for k, v in loc.items() if not (v[0] == 's' and v[1] == name)}
+            loc[l] = ('s', name, True)
+        elif t['k'] == 'call' and not t['dest'].get('p'):
+            loc.pop(t['dest']['l'], None)
         nexts = []
         if t['k'] == 'switch' and 'enum' not in t:
             pl = op_place(t['d'])
-            s = sym.get(pl['l']) if pl is not None and not pl.get('p') else None
-            if s is not None:
-                name, pol = s
-                for val, tgt in t['ts']:
-                    if val == '0':
-                        nexts.append((tgt, name, not pol))   # local is false => named bool is `not pol`
-                    else:
-                        nexts.append((tgt, name, pol))
-                nexts.append((t['else'], name, pol))          # non-zero => local true
+            v = loc.get(pl['l']) if pl is not None and not pl.get('p') else None
+            zero = [tg for val, tg in t['ts'] if val == '0']
+            nonzero = [tg for val, tg in t['ts'] if val != '0'] + [t['else']]
+            if v is not None and v[0] == 'c':
+                for tg in (nonzero if v[1] else zero):
+                    nexts.append((tg, None, None))
+            elif v is not None and v[0] == 's':
+                _, name, pol = v
+                if name in named:
+                    truth = named[name] == pol
+                    for tg in (nonzero if truth else zero):
+                        nexts.append((tg, None, None))
+                else:
+                    for tg in zero:
+                        nexts.append((tg, name, not pol))
+                    for tg in nonzero:
+                        nexts.append((tg, name, pol))
             else:
                 nexts = [(s_, None, None) for s_ in body.succ(bb)]
         else:
             nexts = [(s_, None, None) for s_ in body.succ(bb)]
         for tgt, name, val in nexts:
-            d2 = dict(d)
-            # evaluating a named call (in the *current* block's terminator) forgets the previous knowledge
-            for n in evals.get(bb, []):
-                d2.pop(n, None)
+            n2 = dict(named)
             if name is not None:
-                if name in d2 and d2[name] != val:
-                    continue  # infeasible
-                d2[name] = val
-            ns = (tgt, frozenset(d2.items()))
+                if name in n2 and n2[name] != val:
+                    continue
+                n2[name] = val
+            ns = (tgt,) + freeze(n2, loc)
             if ns not in seen:
                 seen.add(ns)
                 work.append(ns)
+    sym, _ = symbolic_bools(body, named_calls)
     return {b: [dict(s) for s in sts] for b, sts in out.items()}, sym, eval_blocks
